@@ -397,6 +397,8 @@ class Emit:
             ct = s.ctype(t)
             if ext or p.peek()[0] == 'eof' or p.at(','):
                 if ext and (name.startswith('@_ZTVN10__cxxabiv') or name == '@__dso_handle'): ext = False   # RTTI helper vtables: only their address is used
+                if cid(name) in ('stdout', 'stderr', 'stdin'):
+                    out.append('#ifdef __CPROVER__\nextern %s %s;\n#endif' % (ct, s.gname(name))); continue   # natively <stdio.h> declares them
                 out.append('extern %s %s;' % (ct, s.gname(name)) if ext else '%s %s;' % (ct, s.gname(name))); continue
             v = s.parse_val(p, t, None)
             init = v.c
@@ -405,7 +407,7 @@ class Emit:
         # order: declarations first to allow address cross refs
         decls = []
         for name, ln in s.m.globals.items():
-            if name in s.used_globals and name != '@llvm.global_ctors' and cid(name) not in RTGLOBALS:
+            if name in s.used_globals and name != '@llvm.global_ctors' and cid(name) not in RTGLOBALS and cid(name) not in ('stdout', 'stderr', 'stdin'):
                 p = P(tokenize(ln));
                 while p.peek()[1] not in ('global', 'constant'): p.next()
                 p.next(); t = parse_type(p); decls.append('extern %s %s;' % (s.ctype(t), s.gname(name)))
